@@ -425,9 +425,11 @@ class BasicEmptyDataElementVisitor(BasicConstructVisitor):
 class BasicReadStatementPatcherVisitor(BasicConstructVisitor):
     def visit_data_statement(self, statement: BasicDataStatement):
         exp: AbstractBasicExpression
-        for exp in statement.exp_list.exp_list:
+        exp_list = statement.exp_list.exp_list
+        for idx, exp in enumerate(exp_list):
             if not isinstance(exp.literal, str):
-                exp.literal = str(exp.literal)
+                # hex items have no literal setter; every item becomes a string
+                exp_list[idx] = BasicLiteral(str(exp.literal))
 
     def visit_read_statement(self, statement: BasicReadStatement):
         """
